@@ -3437,6 +3437,8 @@ where
             return Ok(());
         }
 
+        #[cfg(feature = "verif-hooks")]
+        crate::verif_failpoints::hit::<TriangulationValidationError>("ins.validate_after")?;
         self.log_validation_trigger_if_enabled(suspicion);
         if should_validate {
             self.is_valid()
@@ -4051,6 +4053,8 @@ where
             boundary_facets = Self::star_split_boundary_facets(start_cell);
         }
 
+        #[cfg(feature = "verif-hooks")]
+        crate::verif_failpoints::hit::<InsertionError>("ins.cavity.fill")?;
         // Fill cavity BEFORE removing old cells
         let new_cells = fill_cavity(&mut self.tds, v_key, &boundary_facets)?;
         self.canonicalize_positive_orientation_for_cells(&new_cells)
@@ -4060,9 +4064,13 @@ where
                 ),
             })?;
 
+        #[cfg(feature = "verif-hooks")]
+        crate::verif_failpoints::hit::<InsertionError>("ins.cavity.external")?;
         // Wire neighbors (while both old and new cells exist)
         let external_facets =
             external_facets_for_boundary(&self.tds, &conflict_cells, &boundary_facets)?;
+        #[cfg(feature = "verif-hooks")]
+        crate::verif_failpoints::hit::<InsertionError>("ins.cavity.wire")?;
         wire_cavity_neighbors(
             &mut self.tds,
             &new_cells,
@@ -4175,6 +4183,8 @@ where
             suspicion.neighbor_pointers_rebuilt = repaired > 0;
         }
 
+        #[cfg(feature = "verif-hooks")]
+        crate::verif_failpoints::hit::<InsertionError>("ins.cavity.normalize")?;
         // Canonicalize cell ordering and geometric orientation invariants.
         self.normalize_and_promote_positive_orientation()?;
 
@@ -4235,6 +4245,8 @@ where
             ));
         }
 
+        #[cfg(feature = "verif-hooks")]
+        crate::verif_failpoints::hit::<InsertionError>("ins.cavity.connectedness")?;
         // Connectedness guard (STRUCTURAL SAFETY, NOT Level 3 validation)
         self.validate_connectedness(&new_cells)?;
 
@@ -4272,6 +4284,8 @@ where
         let inserted_uuid = vertex.uuid();
         let point = *vertex.point();
 
+        #[cfg(feature = "verif-hooks")]
+        crate::verif_failpoints::hit::<InsertionError>("ins.impl.insert_vertex")?;
         // 1. Insert vertex into Tds
         let mut v_key = self
             .tds
@@ -4287,6 +4301,8 @@ where
         } else if num_vertices == D + 1 {
             // Build initial simplex from all D+1 vertices
             let all_vertices: Vec<_> = self.tds.vertices().map(|(_, v)| *v).collect();
+            #[cfg(feature = "verif-hooks")]
+            crate::verif_failpoints::hit::<InsertionError>("ins.impl.initial_simplex")?;
             let new_tds = Self::build_initial_simplex(&all_vertices).map_err(|e| {
                 InsertionError::CavityFilling {
                     message: format!("Failed to build initial simplex: {e}"),
@@ -4299,6 +4315,8 @@ where
             self.tds = new_tds;
             self.tds.advance_generation_past(previous_generation);
 
+            #[cfg(feature = "verif-hooks")]
+            crate::verif_failpoints::hit::<InsertionError>("ins.impl.remap_after_simplex")?;
             // Re-map vertex key to the rebuilt TDS
             v_key = self
                 .tds
@@ -4312,6 +4330,8 @@ where
             return Ok(((v_key, first_cell), 0, suspicion));
         }
 
+        #[cfg(feature = "verif-hooks")]
+        crate::verif_failpoints::hit::<InsertionError>("ins.impl.locate")?;
         // 3. Locate containing cell (for vertex D+2 and beyond)
         #[cfg(debug_assertions)]
         let (location, locate_stats) = {
@@ -4601,6 +4621,8 @@ where
                         return Err(err);
                     }
                 };
+                #[cfg(feature = "verif-hooks")]
+                crate::verif_failpoints::hit::<InsertionError>("ins.hull.canonicalize")?;
                 self.canonicalize_positive_orientation_for_cells(&new_cells)?;
                 #[cfg(debug_assertions)]
                 if std::env::var_os("DELAUNAY_DEBUG_HULL").is_some() {
@@ -4754,6 +4776,8 @@ where
                 }
 
                 // Canonicalize cell ordering and geometric orientation invariants.
+                #[cfg(feature = "verif-hooks")]
+                crate::verif_failpoints::hit::<InsertionError>("ins.hull.normalize")?;
                 self.normalize_and_promote_positive_orientation()?;
 
                 // Assign an incident cell for the inserted vertex without a global rebuild.
@@ -4798,6 +4822,8 @@ where
 
                 // Connectedness guard (localized): ensure the newly created cell set is internally
                 // connected and attached to the existing triangulation.
+                #[cfg(feature = "verif-hooks")]
+                crate::verif_failpoints::hit::<InsertionError>("ins.hull.connectedness")?;
                 self.validate_connectedness(&new_cells)?;
 
                 // Return vertex key and hint for next insertion
@@ -4875,6 +4901,8 @@ where
             return self.tds.remove_vertex(vertex);
         }
 
+        #[cfg(feature = "verif-hooks")]
+        crate::verif_failpoints::hit::<TdsMutationError>("rm.boundary")?;
         // Extract cavity boundary BEFORE removing cells
         let boundary_facets =
             extract_cavity_boundary(&self.tds, &cells_to_remove).map_err(|e| {
@@ -4900,6 +4928,8 @@ where
         // subsequent orientation/finalization step fails.
         let tds_snapshot = self.tds.clone();
         let retriangulation_result = (|| -> Result<usize, TdsMutationError> {
+            #[cfg(feature = "verif-hooks")]
+            crate::verif_failpoints::hit::<TdsMutationError>("rm.fan_fill")?;
             // Fill cavity with fan triangulation BEFORE removing old cells
             // Use fan triangulation that skips boundary facets which already include the apex
             let new_cells = self
@@ -4914,12 +4944,16 @@ where
                     ),
                 })?;
 
+            #[cfg(feature = "verif-hooks")]
+            crate::verif_failpoints::hit::<TdsMutationError>("rm.external")?;
             // Wire neighbors for the new cells (while both old and new cells exist)
             let external_facets =
                 external_facets_for_boundary(&self.tds, &cells_to_remove, &boundary_facets)
                     .map_err(|e| TdsValidationError::InconsistentDataStructure {
                         message: format!("External-facet collection failed: {e}"),
                     })?;
+            #[cfg(feature = "verif-hooks")]
+            crate::verif_failpoints::hit::<TdsMutationError>("rm.wire")?;
             wire_cavity_neighbors(
                 &mut self.tds,
                 &new_cells,
@@ -4935,6 +4969,8 @@ where
             // cells that reference removed cells (sets them to None/boundary)
             let mut cells_removed = self.tds.remove_cells_by_keys(&cells_to_remove);
 
+            #[cfg(feature = "verif-hooks")]
+            crate::verif_failpoints::hit::<TdsMutationError>("rm.local_issues")?;
             // Validate facet topology for newly created cells (O(k*D) localized check)
             if let Some(issues) = self.detect_local_facet_issues(&new_cells)? {
                 #[cfg(debug_assertions)]
@@ -4959,6 +4995,8 @@ where
                     })?;
                 }
             }
+            #[cfg(feature = "verif-hooks")]
+            crate::verif_failpoints::hit::<TdsMutationError>("rm.normalize")?;
             // Fan retriangulation may produce locally inconsistent slot orderings; normalize
             // orientation before rebuilding incidence and removing the vertex.
             self.tds.normalize_coherent_orientation()?;
@@ -4977,9 +5015,13 @@ where
                 }
             })?;
 
+            #[cfg(feature = "verif-hooks")]
+            crate::verif_failpoints::hit::<TdsMutationError>("rm.assign_incident")?;
             // Rebuild vertex-cell incidence for all vertices
             self.tds.assign_incident_cells()?;
 
+            #[cfg(feature = "verif-hooks")]
+            crate::verif_failpoints::hit::<TdsMutationError>("rm.remove_vertex")?;
             // Remove the vertex using Tds method (handles internal bookkeeping)
             self.tds.remove_vertex(vertex)?;
 
